@@ -6,7 +6,7 @@
           independent by theorem C02_delivered_is_prefix + completion) <> observed,
           2 = property oracle fails on the observation, 0 = case does not parse. *)
 From Coq Require Import ZArith List Bool Arith.
-From Verif Require Import Base.Wire Pipeline.Model Pipeline.Exec C07.Check.
+From Verif Require Import Base.Wire Pipeline.Model Pipeline.Exec Pipeline.Source C07.Check.
 Import ListNotations.
 Open Scope Z_scope.
 Open Scope wire_scope.
@@ -17,7 +17,7 @@ Definition check_full : P (list Z) :=
   n <- pnat ;; resume <- pbool ;; its <- plist (ppair pint pint) ;;
   filter <- pint ;; perturb <- pint ;; ids <- plist pint ;; e <- pint ;;
   let inp := mk_input filter 0 its in
-  let c := mkCfg n inp resume 0 true true true in
+  let c := cfg_of_source n inp resume 0 in
   let fuel := (4 * length its + 4 * n + 60)%nat in
   let '(s, fin) := scan_all c fuel (S (length ids + 2)) (init c) in
   let j1 := fin && list_eqb Z.eqb (delivered s) ids && (err_value s =? e) in
@@ -28,7 +28,7 @@ Definition check_cut : P (list Z) :=
   n <- pnat ;; resume <- pbool ;; its <- plist (ppair pint pint) ;;
   at_ <- pint ;; ids <- plist pint ;; e <- pint ;;
   let inp := mk_input 0 0 its in
-  let c := mkCfg n inp resume 0 true true true in
+  let c := cfg_of_source n inp resume 0 in
   let complete := list_eqb Z.eqb ids (expected inp) in
   let j2 :=
     wf_cfg c && prefixb ids (expected inp) &&
